@@ -17,6 +17,7 @@ from . import ir
 from . import paths
 
 IDX = ir.var('@i', 'I')
+COUNT_OF = {}
 
 
 class State(object):
@@ -289,7 +290,9 @@ class Lane(object):
 
     def length(self):
         if self.mask is not None:
-            return Sym(ir.uf('count', [self.mask], 'I'))
+            t = ir.uf('count', [self.mask], 'I')
+            COUNT_OF[t] = (self.mask, self.n)        # lets np.full((count,), v) rebuild an array on the same selection
+            return Sym(t)
         return self.n
 
     def whole(self):
@@ -346,6 +349,8 @@ class Lane(object):
                 return True
         if _is_one(self.n) and self.mask is None:
             return Sym(self.t)
+        if _universally(self._guard(self.t)):
+            return True
         b = State.ctx.fresh('all', 'B')
         State.ctx.assume(ir.implies(b, self._guard(self.t)))
         return Sym(b)
@@ -357,8 +362,10 @@ class Lane(object):
             return False
         if _is_one(self.n) and self.mask is None:
             return Sym(self.t)
-        b = State.ctx.fresh('any', 'B')
         g = self.t if self.mask is None else ir.and_(self.mask, self.t)
+        if _universally(ir.not_(g)):
+            return False
+        b = State.ctx.fresh('any', 'B')
         State.ctx.assume(ir.implies(ir.not_(b), ir.not_(g)))
         return Sym(b)
 
@@ -368,14 +375,14 @@ class Lane(object):
     def max(self, axis=None):
         if _is_one(self.n) and self.mask is None:
             return Sym(self.t)
-        m = State.ctx.fresh('max', self.t.sort)
+        m = ir.uf('np.max', [self.whole()], self.t.sort)       # a function of the whole array, >= every element
         State.ctx.assume(self._guard(ir.le(self.t, m)))
         return Sym(m)
 
     def min(self, axis=None):
         if _is_one(self.n) and self.mask is None:
             return Sym(self.t)
-        m = State.ctx.fresh('min', self.t.sort)
+        m = ir.uf('np.min', [self.whole()], self.t.sort)
         State.ctx.assume(self._guard(ir.le(m, self.t)))
         return Sym(m)
 
@@ -464,6 +471,28 @@ class Lane(object):
             self.t = to_term(val)
             return
         raise paths.Unsupported('array store %r' % (key,))
+
+
+def assume_all_lanes(cond):
+    """a fact about EVERY lane of the batch (a precondition on whole input arrays): recorded so that the adversarial
+    reductions cannot contradict it, and assumed for the generic lane"""
+    c = State.ctx
+    if not hasattr(c, 'universal'):
+        c.universal = []
+    c.universal.append(cond)
+    c.assume(cond)
+
+
+def _universally(t):
+    """is the lane predicate t implied, for every lane, by the facts assumed for all lanes (and lane-free facts)?"""
+    c = State.ctx
+    uni = getattr(c, 'universal', None)
+    if not uni:
+        return False
+    from . import smt
+    lane_free = [p for p in c.pc if not _mentions_lane(p)]
+    r = smt.prove(list(uni) + lane_free, t, timeout_ms=2000, use_cvc5=False, free_ufs_ok=True)
+    return r.verdict == 'proved'
 
 
 def _mentions_lane(t):
